@@ -1134,3 +1134,73 @@ def rf100(run):
                       'computation (mov / mul / add) after the instruction: `addo i64:8(p), a, b; bo L` becomes addo; mov; add; mov; bo and '
                       'the generated add overwrites the overflow flag the branch tests' % '/'.join(bad), line=decl['init']['l'])
     return n
+
+
+# ---------------------------------------------------------------------------------------------
+# RF48b: no opcode map negates an ordered floating-point relation
+# ---------------------------------------------------------------------------------------------
+
+def rf48b(run, units=('mir', 'gen')):
+    import sys as _sys, os as _os
+    _sys.path.insert(0, _os.path.join(F.VERIF, 'spec'))
+    import opcodes as SPEC
+    rule = 'RF48b'
+    run.rule(rule, 'every function of mir.c / mir-gen.c that maps an opcode to an opcode (one MIR_insn_code_t parameter, result '
+                   'MIR_insn_code_t, body a switch of returns), evaluated for all opcodes: a floating-point comparison or branch with an '
+                   'ordered relation (<, <=, >, >=) is never mapped to the negated relation of the same type — both are false for a NaN, '
+                   'so `fblt L1; jmp L2; L1:` is not `fbge L2`.  (Swapping the operands, LT -> GT, is a different map and is decided by RF110.)')
+    NEG = {'<': '>=', '>=': '<', '<=': '>', '>': '<='}
+    n = 0
+    maps = 0
+    for u in units:
+        tu = run.tu(u)
+        codes = tu.enum('MIR_insn_code_t')
+        byv = {}
+        for nm, v in codes:
+            byv.setdefault(v, nm)
+        bound = dict(codes)['MIR_INSN_BOUND']
+        me = MayEval(tu)
+        for f in tu.func_list:
+            if f.body is None or not f.file.startswith('/repo') or len(f.params) != 1:
+                continue
+            if 'MIR_insn_code_t' not in tu.type(f.ret).s or 'MIR_insn_code_t' not in tu.type(f.params[0]['t']).s:
+                continue
+            if u == 'gen' and f.name in tu_names_seen(run, 'mir'):
+                continue
+            maps += 1
+            run.functions_analysed.add((u, f.name))
+            pn = f.params[0]['n']
+            for nm, v in codes:
+                if v >= bound or not nm.startswith('MIR_'):
+                    continue
+                sp = SPEC.parse(nm[4:])
+                if sp is None or sp.kind not in ('bcmp', 'cmp') or sp.dom == 'i' or sp.op not in NEG:
+                    continue
+                try:
+                    rs = me.returns(F.kids(f.body), {pn: v})
+                except F.AnalysisBroken:
+                    rs = None
+                if rs is None:
+                    raise F.AnalysisBroken('%s (%s) not evaluable' % (f.name, nm))
+                n += 1
+                bad = None
+                for r in rs:
+                    rn = byv.get(r, str(r))
+                    s2 = SPEC.parse(rn[4:]) if rn.startswith('MIR_') else None
+                    if s2 is not None and s2.kind == sp.kind and s2.dom == sp.dom and s2.width == sp.width and s2.op == NEG[sp.op]:
+                        bad = rn
+                run.ob(rule, (f.name, nm), bad is None, {'map': f.name, 'opcode': nm, 'result': sorted(byv.get(r, str(r)) for r in rs)} if bad or n % 24 == 1 else None)
+                if bad:
+                    run.violation(rule, f, '%s -> %s' % (nm, bad), '%s maps %s to %s, the negated relation: both are false when an operand is NaN, so code '
+                                  'rewritten through this map (a branch over a jump turned into the "opposite" branch) takes the other arm for a NaN' %
+                                  (f.name, nm, bad), line=f.line)
+    if maps < 2:
+        raise F.AnalysisBroken('RF48b: only %d opcode maps found' % maps)
+    return n
+
+
+def tu_names_seen(run, unit):
+    """names of functions defined in another unit (mir.c is textually included by mir-gen.c builds? no: separate units) — used to
+    avoid analysing the same included function twice"""
+    tu = run.tu(unit)
+    return {f.name for f in tu.func_list if f.body is not None}
